@@ -55,7 +55,7 @@ def update (s : St) (default : String) (opts : Opts) (dialFail : List String) (c
         | none => none
         | some l =>
           match findME s p.1 with
-          | some me => some (p.1, (ME.opSetEndpoints me l).1)
+          | some me => some (p.1, (ME.step me (.setEndpoints l)).1)
           | none => (ME.init 0 0 l).map fun me => (p.1, me)
       let obsolete := pools.filter fun e => !valid.contains e
       let pools := pools.filter fun e => valid.contains e
